@@ -113,3 +113,55 @@ func VerifC04_simple() { checkC04(WlcSimple, 1, vrt.Param("N", 3)) }
 // VerifC04_pair: two backends, wide value ranges: decides the cross-multiplication in compLCWeight
 // against the 128-bit reference (REF128=1) without needing transitivity of the ratio order.
 func VerifC04_pair() { checkC04(WlcSmooth, 2, 2) }
+
+// ---- concrete boundary cases (near ties) ----
+
+// nearTieC04: magnitudes n of the adjacent-fraction pair  A = n/(n+1)  >  B = (n-1)/n  (conns/weight);
+// the cross-multiplied difference is exactly 1, the smallest gap two different ratios can have, and the
+// ratio gap 1/(n(n+1)) ranges from 1e-2 down to 1e-12.
+var nearTieC04 = []int{10, 100, 1000, 10000, 100000, 1000000}
+
+// boundaryC04: every operand is CONCRETE (chosen with vrt.Choose), so an implementation that compares
+// the ratios in floating point is executed concretely by the engine (symbolic floats are not encoded).
+// Two backends A (conns n*s, weight (n+1)*s*100... ) and B with a strictly smaller ratio, in both list
+// orders, optionally scaled: B is the unique minimum and must be chosen; A must not enter the tie set.
+func boundaryC04(algo int) {
+	n := nearTieC04[vrt.Choose("magnitude", len(nearTieC04))]
+	scale := 1
+	if vrt.Choose("scaled", 2) == 1 {
+		scale = 100 // conf weights are multiplied by 100 by BackendRR.Init
+	}
+	bFirst := vrt.Choose("order", 2) == 1
+	wA, cA := (n+1)*scale, n
+	wB, cB := n*scale, n-1
+	w, conn := []int{wA, wB}, []int{cA, cB}
+	minIdx := 1
+	if bFirst {
+		w, conn = []int{wB, wA}, []int{cB, cA}
+		minIdx = 0
+	}
+	brr := NewBalanceRR("sc")
+	brr.Init(mkConfC04(2))
+	for i := 0; i < 2; i++ {
+		brr.backends[i].weight = w[i]
+		brr.backends[i].current = w[i] // the non-minimal A has the larger weight: a smooth round among {A,B} would pick A
+		backend.VerifHelpSetState(brr.backends[i].backend, true, conn[i])
+	}
+	b, err := brr.Balance(algo, nil)
+	vrt.Assert(err == nil && b != nil, "C04/boundary-selects")
+	k := indexOfC04(brr, b)
+	vrt.Assert(k >= 0, "C04/boundary-selects-member")
+	// conn_k * w_i <= conn_i * w_k for both i (exact in 64 bits: operands < 2^31)
+	for i := 0; i < 2; i++ {
+		if k >= 0 {
+			vrt.Assert(uint64(conn[k])*uint64(w[i]) <= uint64(conn[i])*uint64(w[k]), "C04/boundary-minimal-conn-per-weight")
+		}
+	}
+	vrt.Assert(k == minIdx, "C04/boundary-unique-minimum-chosen")
+}
+
+// VerifC04_boundary: WlcSmooth on the concrete near-tie pairs.
+func VerifC04_boundary() { boundaryC04(WlcSmooth) }
+
+// VerifC04_boundary_simple: WlcSimple on the same pairs (rand nondeterministic if a tie set forms).
+func VerifC04_boundary_simple() { boundaryC04(WlcSimple) }
